@@ -90,6 +90,9 @@ class BBAN(common.Base):
     def __init__(self, country_code: str, value: str) -> None:
         self.country_code = country_code
 
+    def __getnewargs__(self) -> tuple[str, str]:  # type: ignore[override]
+        return (self.country_code, str(self))
+
     @classmethod
     def from_components(cls, country_code: str, **values: str) -> BBAN:
         """Generate a BBAN from its national components.
